@@ -37,7 +37,7 @@ HAZARD = [
     "BinOp.Mult.left", "UnaryOp.USub", "UnaryOp.Not", "Compare.In.left", "Compare.NotIn.right", "BoolOp.And.0", "BoolOp.Or.2",
     "Lambda.body", "Lambda.default", "IfExp.body", "IfExp.test", "IfExp.orelse", "NamedExpr.value",
     "GeneratorExp.elt", "ListComp.iter", "ListComp.if", "Yield.value", "Await.value", "Dict.value",
-    "Dict.starstar", "Tuple.elt1", "Set.elt1",
+    "Dict.starstar", "Tuple.elt1", "Set.elt1", "SetComp.elt", "ListComp.elt", "DictComp.value", "GeneratorExp.iter", "Slice.upper",
 ]
 LEAF_REPS = ["Name", "Int", "Str", "EmptyDict", "Set1", "FStrField", "Yield0", "Complex"]
 
